@@ -168,6 +168,9 @@ Section Codec.
     prepare enc est maxp q = Some (q', est') -> qfits m q'.
   Proof.
     intros [Hlo [Hhi Hle]] Hq. destruct q; cbn [prepare]; try (intro H; inversion H; subst; exact Hq).
+    - intro H. inversion H; subst. unfold qfits. cbn [send].
+      eapply Forall_impl; [|apply (wdata_pieces_fit (length data) maxp id data es); lia].
+      intros w Hw. cbn beta in Hw. lia.
     - destruct (enc est fields) as [bytes e']. destruct (split_chunks _ _ bytes) as [ch|] eqn:Es; [|discriminate].
       intro H. inversion H; subst. apply split_chunks_fit in Es as [c0 [rest [-> [H0 Hr]]]].
       unfold qfits. cbn [send hd tl]. constructor.
